@@ -189,6 +189,10 @@ func c11Long(i int) genCase {
 		"{ x = \"a\" (NR %% 2 ? skipper() : \"b\"); c++ }\nfunction skipper() { next }\nEND { print c }",
 		"function r(n, l1, l2, l3) { l1 = n; if (n > 0) return r(n - 1) + 1; return 0 }\n{ print r(40 + NR %% 5) }",
 		"NR %% 7 == 0, NR %% 11 == 0 { c++; next }\n{ d++ }\nEND { print c, d }",
+		// local arrays of a call that is left through next / nextfile / exit: the next call starts with empty ones
+		"function f(x,   loc) { loc[NR] = 1; loc[\"k\"]; if (x %% 2) next; return length(loc) }\n{ s += f(NR) }\nEND { print s, NR }",
+		"function g(   seen, k, n) { for (k in seen) n++; seen[FNR] = 1; seen[FNR, 2] = 2; if (FNR == 2) nextfile; return n + 0 }\n{ t += g() }\nEND { print t, NR }",
+		"function fill(   m) { m[1]; m[2]; m[3]; exit 3 }\nfunction cnt(   m2, k, n) { for (k in m2) n++; return (1 in m2) \":\" n + 0 \":\" length(m2) }\nNR == 5 { fill() }\nEND { print cnt(), NR }",
 	}
 	var sb strings.Builder
 	for k := 0; k < 2400; k++ {
@@ -200,7 +204,7 @@ func c11Long(i int) genCase {
 	}
 	cs := genCase{Family: "long", Src: strings.ReplaceAll(progs[i%len(progs)], "%%", "%") + "\n"}
 	cs.Env.Stdin = sb.String()
-	if i%len(progs) == 2 {
+	if i%len(progs) == 2 || i%len(progs) == 9 {
 		cs.Env.Files = map[string]string{}
 		for f := 0; f < 1200; f++ {
 			name := fmt.Sprintf("f%04d", f)
@@ -210,6 +214,31 @@ func c11Long(i int) genCase {
 		cs.Env.Stdin = ""
 	}
 	return cs
+}
+
+// c11ExitMatrix: where the first exit happens (BEGIN, a rule, a function, a getline loop) and with
+// what value, against what END does (nothing, plain exit, exit with a literal, an expression, an
+// unset variable): the status is the value of the LAST exit that gave one.
+func c11ExitMatrix() []genCase {
+	firsts := []string{
+		"BEGIN { %X }", "NR == 2 { %X }", "function q() { %X }\nNR == 1 { q() }", "BEGIN { while ((getline l < \"in0\") > 0) if (l ~ /b/) %X }", "{ n++ }", "BEGIN { if (0) %X }",
+		"function q(d) { if (d > 3) %X; q(d + 1) }\n{ q(0) }", "NR == 1, NR == 3 { if (NR == 2) %X }",
+	}
+	vals := []string{"exit", "exit 0", "exit 3", "exit 1 - 1", "exit z", "exit \"7x\"", "exit 256 + 4", "exit -1", "exit 2.9"}
+	ends := []string{"", "END { print \"E\", NR }", "END { print \"E\"; exit }", "END { exit 0 }", "END { print \"E\"; exit 0 }", "END { exit 2 }", "END { exit 1 - 1 }", "END { exit z }", "END { if (NR > 1) exit 0; exit 9 }",
+		"function fin() { exit 0 }\nEND { fin(); print \"never\" }", "END { exit 0 }\nEND { print \"second END\" }", "END { exit \"\" }"}
+	var out []genCase
+	for _, f := range firsts {
+		for _, v := range vals {
+			for _, e := range ends {
+				cs := genCase{Family: "exit-matrix", Src: strings.ReplaceAll(f, "%X", v) + "\n" + e + "\n"}
+				cs.Env.Stdin = "a\nb\nc\n"
+				cs.Env.Files = map[string]string{"in0": "a\nb\nc\n"}
+				out = append(out, cs)
+			}
+		}
+	}
+	return out
 }
 
 func init() {
@@ -233,17 +262,23 @@ func init() {
 		},
 		NBatches: func(t core.Tier) int { return n(t, 16, 64) },
 		Floors: func(t core.Tier) map[string]int {
-			return map[string]int{"evaluations": n(t, 3000, 150000), "distinct_nontrivial": n(t, 2500, 100000), "ref_agreed": n(t, 2500, 100000), "long_cases": 8}
+			return map[string]int{"evaluations": n(t, 3000, 150000), "distinct_nontrivial": n(t, 2500, 100000), "ref_agreed": n(t, 2500, 100000), "long_cases": 22, "exit_matrix_cases": 800}
 		},
 		Run: func(c *core.Ctx) {
 			if err := diffrun.Prepare(c.WorkDir()); err != nil {
 				c.Inconclusive("chdir: " + err.Error())
 				return
 			}
-			for i := 0; i < 16; i++ {
+			for i := 0; i < 22; i++ {
 				if c.Mine(i) {
 					c01RunCase(c, c11Long(i), "C11")
 					c.Count("long_cases", 1)
+				}
+			}
+			for i, cs := range c11ExitMatrix() {
+				if c.Mine(i) {
+					c01RunCase(c, cs, "C11")
+					c.Count("exit_matrix_cases", 1)
 				}
 			}
 			rng := c.Rand("cases")
